@@ -316,9 +316,20 @@ def _matcher_guards(func: str, idx: str) -> list[Guard]:
     return out
 
 
+# the spellings of 'some entry of the per-layer mask is set' (all of them atoms of the truth table)
+ANY_SPELLINGS = (
+    "torch.any(integration_mask).item()",
+    "torch.any(integration_mask)",
+    "integration_mask.any().item()",
+    "integration_mask.any()",
+    "bool(torch.any(integration_mask))",
+    "bool(integration_mask.any())",
+)
+
 # guard environments used through dominates_call (props C06 / C09, rules/extra.py): canonical forms are generated for them too
 EXTRA_CANON_SPECS = [
     Guard(FUNC + "evidence", "partial-multivariate", {"isinstance(sl, InputLayer)": True, "sl.scope & scope": True, "sl.scope <= scope": False}),
+    Guard("cirkit.backend.torch.queries.IntegrateQuery._layer_fn", "nothing-selected", {"isinstance(layer, TorchInputLayer)": True, "layer.num_variables > 1": False, **{k: False for k in ANY_SPELLINGS}}),
     Guard(FUNC + "multiply", "disjoint-different-size", {"sc1.scope != sc2.scope": False, "are_compatible(sc1, sc2)": True, "pair in layers_to_block": False,
           "sc1.layer_scope(l1) & sc2.layer_scope(l2)": False, "l1.num_output_units != l2.num_output_units": True}),
 ]
@@ -369,4 +380,52 @@ def scope_membership(ctx: Ctx, fq: str, label: str) -> list[Ob]:
             out.append(viol("R8m", fq, label, f"the refusing condition `{unparse(g.test)[:50]}` derives from the scope only through a bound (max / len), not through a set operation: ids in a gap of the scope pass the check", site))
     if not decided:
         out.append(unres("R8m", fq, label, "no refusing guard whose condition derives from a scope", f.loc))
+    return out
+
+
+# ------------------------------------------------------------------------------- R8s: masks select, they do not scale
+def mask_selects(ctx: Ctx, fq: str, mask_param: str, label: str) -> list[Ob]:
+    """R8s -- a boolean mask chooses between two values with a *selection* (``torch.where``, masked
+    assignment); it is never an arithmetic factor.  In log space a de-selected value may be -inf
+    (probability zero) and ``0 * -inf`` is nan: a blend ``m * a + (1 - m) * b`` makes the marginal
+    depend on the batch value of a variable that is being integrated out.  Decided by taint: every
+    value derived from the mask parameter (through assignments, method calls on it, vmap / permute /
+    dtype casts) must not be an operand of ``*`` / ``/`` / ``@``, nor of ``-`` / ``+`` arithmetic."""
+    f = ctx.repo.func(fq)
+    tainted = {mask_param}
+    changed = True
+    assigns = [n for n in walk_no_nested(f.node) if isinstance(n, (ast.Assign, ast.AnnAssign)) and getattr(n, "value", None) is not None]
+    while changed:
+        changed = False
+        for a in assigns:
+            tg = a.targets if isinstance(a, ast.Assign) else [a.target]
+            names = {x.id for x in ast.walk(a.value) if isinstance(x, ast.Name)}
+            if names & tainted:
+                # selections launder the taint: the result of where(mask, a, b) is a value, not a mask
+                if isinstance(a.value, ast.Call) and (dotted(a.value.func) or "").split(".")[-1] in ("where", "masked_fill", "masked_scatter", "any", "all"):
+                    continue
+                for t in tg:
+                    if isinstance(t, ast.Name) and t.id not in tainted:
+                        tainted.add(t.id)
+                        changed = True
+    out: list[Ob] = []
+    bad = []
+    for n in walk_no_nested(f.node):
+        if isinstance(n, ast.BinOp) and isinstance(n.op, (ast.Mult, ast.Div, ast.MatMult, ast.Add, ast.Sub)):
+            for side in (n.left, n.right):
+                if any(isinstance(x, ast.Name) and x.id in tainted for x in ast.walk(side)) and not isinstance(side, ast.Constant):
+                    # index arithmetic on shapes of the mask is not arithmetic on the mask
+                    if all(isinstance(p_, ast.Attribute) and p_.attr == "shape" for p_ in ast.walk(side) if isinstance(p_, ast.Attribute)) and any(isinstance(p_, ast.Attribute) for p_ in ast.walk(side)):
+                        continue
+                    bad.append(n)
+                    break
+    if bad:
+        n = bad[0]
+        out.append(viol("R8s", fq, label, f"the mask enters arithmetic (`{unparse(n)[:70]}`): a de-selected -inf (log of probability zero) times 0 is nan, so the result depends on the value of a variable that is integrated out; select with torch.where", f"{f.module.relpath}:{n.lineno}"))
+    else:
+        sel = [n for n in walk_no_nested(f.node) if isinstance(n, ast.Call) and (dotted(n.func) or "").split(".")[-1] in ("where", "masked_fill", "masked_scatter") and any(isinstance(x, ast.Name) and x.id in tainted for x in ast.walk(n))]
+        if sel:
+            out.append(ok("R8s", fq, label, f"the mask is only used as a selector ({len(sel)} selection(s)), never as a factor", f.loc))
+        else:
+            out.append(unres("R8s", fq, label, "no selection by the mask found (another formulation): no verdict", f.loc))
     return out
